@@ -1429,6 +1429,69 @@ pub fn run_deep(prop: &'static str, depth: usize) -> Result<u64, (String, String
         obs += 6;
     }
     drop(a);
+    // ---- very wide: one node with `width` children that are spliced into its parent by remove()
+    {
+        let width = depth / 2;
+        let mut a: Arena<Plain> = Arena::new();
+        let root = a.new_node(p(0));
+        let before = root.append_value(p(1), &mut a);
+        let mid = root.append_value(p(2), &mut a);
+        let after = root.append_value(p(3), &mut a);
+        let mut kids: Vec<NodeId> = Vec::with_capacity(width);
+        for i in 0..width {
+            kids.push(mid.append_value(p(100 + i as u64), &mut a));
+        }
+        if matches!(prop, "C09" | "C10" | "C02" | "C05") {
+            if mid.children(&a).count() != width || mid.children(&a).rev().count() != width || mid.children(&a).last() != kids.last().copied() {
+                bail!("wide-children", "children() of a node with {} children does not yield them all", width);
+            }
+            if kids[width / 2].following_siblings(&a).count() != width - width / 2 || kids[width / 2].preceding_siblings(&a).rev().next() != Some(kids[0]) {
+                bail!("wide-siblings", "sibling iterators in a list of {} children are wrong", width);
+            }
+            if root.descendants(&a).count() != width + 4 {
+                bail!("wide-descendants", "descendants of the wide tree: wrong count");
+            }
+            obs += 3;
+        }
+        // remove() splices all children into the grandparent, between `before` and `after`
+        mid.remove(&mut a);
+        let mut k = 0usize;
+        let mut ok = true;
+        let mut expect_prev = Some(before);
+        for c in root.children(&a) {
+            if k >= 1 && k <= width {
+                let n = &a[c];
+                ok &= c == kids[k - 1] && n.parent() == Some(root) && n.previous_sibling() == expect_prev;
+            }
+            expect_prev = Some(c);
+            k += 1;
+            if k > width + 4 {
+                break;
+            }
+        }
+        if !ok || k != width + 2 || a[root].first_child() != Some(before) || a[root].last_child() != Some(after) || a[after].previous_sibling() != kids.last().copied() {
+            bail!("wide-remove-splice", "remove() of a node with {} children did not splice them into its parent with correct parent / sibling links ({} children seen)", width, k);
+        }
+        if prop == "C01" {
+            match mon::c01_wellformed(&a) {
+                Ok(n) => obs += n / 1000,
+                Err(f) => bail!(format!("wide-{}", f.sig), "{}", f.detail),
+            }
+        }
+        if mid.is_removed(&a) != true || a[mid].first_child().is_some() || a[mid].last_child().is_some() {
+            bail!("wide-removed-links", "the removed node keeps child links");
+        }
+        // move one from the middle, then drop everything
+        kids[width / 2].detach(&mut a);
+        if a[kids[width / 2 - 1]].next_sibling() != Some(kids[width / 2 + 1]) {
+            bail!("wide-detach", "detach in the middle of {} siblings did not close the gap", width);
+        }
+        root.remove_subtree(&mut a);
+        if a.iter().filter(|n| !n.is_removed()).count() != 1 {
+            bail!("wide-remove_subtree", "after remove_subtree(root) of the wide tree the number of live nodes is not 1 (the detached one)");
+        }
+        obs += 5;
+    }
     Ok(obs + 1)
 }
 
